@@ -135,7 +135,7 @@ PROPS["C05"] = dict(
     streams=["C05"],
     compare=cmp_laws,
     classify=lambda case, model, why: dict(kind="failing-input", why=(case[1][:400] if "kind=law" in case[2] else why)),
-    gate_imports=EVAL_GATE + "From Cel.Proofs Require Import CtxEquiv FrameProofs.",
+    gate_imports=EVAL_GATE + "From Cel.Model Require Import Heap.\nFrom Cel.Proofs Require Import CtxEquiv FrameProofs HeapProofs.",
     exhaustive=False,
     build_failure_is_violation=c05_build_failure,
     rule="a case is one execution inside a history (one context, 1-50 executions of generated programs, half of "
@@ -146,7 +146,10 @@ PROPS["C05"] = dict(
          "runs; the laws (every context variable, the program and every earlier result print the same after each "
          "execution; a repetition and an equal fresh context give an equal result; owner counts of the context's "
          "buffers are unchanged at the end of a history) are evaluated on the implementation's own state; "
-         "Program, Context and Value are asserted Send + Sync at compile time",
+         "Program, Context and Value are asserted Send + Sync at compile time; "
+         "heap cases: programs of the reference-count model's fragment (context buffers, list/string literals, +) are "
+         "run on the implementation, which also reports which context buffer the result IS (Arc::ptr_eq) and every "
+         "context buffer's owner count (Arc::strong_count) while the result is held - the model predicts all three",
     assumptions=["the interleavings exercised are those the OS scheduler produces; the memory model is not modelled"],
     trusted_extra=["std::sync::Arc and the Rust memory model (shared-reference execution) are outside the model"],
 )
